@@ -165,6 +165,37 @@ def step(cls, k=3, **sel):
     return None
 
 
+def template(t, cls, mask, **sel):
+    """template graphs (real stereo units, SN2 stereo reaction) x subset mask over their atoms"""
+    from vp.lib import eqfam
+    from vp.props import C01
+    spec = eqfam.template_spec(C01.TNAMES[t], gl.CLS_NAMES[cls], sel)
+    atoms = [a for a, _, _ in spec["atoms"]]
+    S = [a for i, a in enumerate(atoms) if mask >> i & 1]
+    ms = gl.model_from_spec(spec).snap()
+    keep, _ = induced(ms, S)
+    for name, mk in list(_iterables(S))[:5]:
+        g = gl.build(spec)
+        try:
+            sub = g.subgraph(mk())
+        except Exception as e:
+            return f"subgraph({name} {S}) raised {type(e).__name__}: {e}"
+        d = gl.diff(gl.snap(sub), keep)
+        if d:
+            return f"subgraph({name} {S}) is not the induced subgraph: {d}"
+        if gl.diff(gl.snap(g), ms):
+            return "subgraph changed the source"
+    # complement pieces composed back (overlap on the centre): labelled union
+    T = [a for a in atoms if a not in S] + S[:1]
+    g = gl.build(spec)
+    p1, p2 = g.subgraph(list(S)), g.subgraph(list(T))
+    comp = type(g).compose(x for x in (p1, p2))
+    d = gl.diff(gl.snap(comp), _union([gl.snap(p1), gl.snap(p2)]))
+    if d:
+        return f"compose of {S} and {T} is not the labelled union: {d}"
+    return gl.coherent(comp)
+
+
 def step3(**kw):
     return step(k=3, **kw)
 
@@ -185,6 +216,15 @@ def plan(tier, seed):
         pre = list(u.pre) + [f"p{i} or not s{i}" for i in range(k)]
         units.append(Sel(name="algebra_" + u.name[4:], func=f"vp.props.C17:step{k}", params=params, pre=pre, shard_by=u.shard_by,
                          timeout=u.timeout, nontrivial="(s0 or s1 or s2) and (b01 or b02 or b12)"))
+    from vp.lib import eqfam
+    from vp.props import C01
+    for (n, c, p, pr) in eqfam.template_units(["star4", "sn2", "dbond"], classes=("SMG", "SCRG")):
+        natoms = {"star4": 5, "sn2": 6, "dbond": 6}[n]
+        params = {"t": (C01.TNAMES.index(n), C01.TNAMES.index(n) + 1), "cls": (gl.CLS_NAMES.index(c), gl.CLS_NAMES.index(c) + 1), "mask": (0, 1 << natoms)}
+        params.update(p)
+        pre = list(pr) + {"star4": ["lig == 0", "kind == 1", "order in (0, 7)", "par == 0", "chg in (0, 2)"], "sn2": ["variant == 0", "par == 0", "fl in (0, 1)"],
+                          "dbond": ["sub in (0, 4)", "kind == 0", "order in (0, 5)", "par == 0", "chg in (0, 3)"]}[n]
+        units.append(Sel(name=f"template_{n}_{c}", func="vp.props.C17:template", params=params, pre=pre, shard_by=[], timeout=1200, nontrivial="mask > 0"))
     return units
 
 
